@@ -263,11 +263,10 @@ class Stop(Exception):
     pass
 
 
-class MCMachine(RuleBasedStateMachine):
-    """Base machine. Subclasses set SCENARIO (a strategy) and override the hooks."""
+class HistoryMachine(RuleBasedStateMachine):
+    """Plumbing shared by every history machine: violation sink, JSON log, guarded execution."""
 
     sink = None
-    SCENARIO = scenario()
     PROP = "C00"
 
     def __init__(self):
@@ -278,22 +277,7 @@ class MCMachine(RuleBasedStateMachine):
         self.viol = None
         self.dead = bool(self.sink is not None and self.sink.exhausted())
         self.mc = None
-        self.history = []  # (entry name, verdict) for every trial
-        self.pending_preselect = None
-        self.n_trials = 0
-
-    # ----- hooks
-    def on_built(self):
-        pass
-
-    def before_move(self, name):
-        return None
-
-    def after_move(self, pre, name, verdict):
-        pass
-
-    def after_step(self):
-        pass
+        self.excluded_known = 0
 
     def is_nontrivial(self):
         return False
@@ -301,14 +285,6 @@ class MCMachine(RuleBasedStateMachine):
     def distinct_key(self):
         return None
 
-    def adjust(self, name, outcome, direction):
-        """Hook: let a property exclude a known-finding trigger by construction (count it)."""
-        return outcome, direction
-
-    def allow_preselect(self, name, move, what):
-        return True
-
-    # ----- plumbing
     def fail(self, kind, detail):
         if self.viol is None:
             self.viol = {"kind": kind, "detail": detail}
@@ -348,6 +324,46 @@ class MCMachine(RuleBasedStateMachine):
             self.fail(f"exception:{type(exc).__name__}@{loc}", f"{where}: {type(exc).__name__}: {exc} (at {loc}:{frame.lineno})")
             raise Stop() from None
 
+    def teardown(self):
+        try:
+            if self.mc is not None:
+                self.mc.close()
+        except Exception:
+            pass
+        if self.sink is not None:
+            self.sink.finish(self)
+
+
+class MCMachine(HistoryMachine):
+    """Base machine. Subclasses set SCENARIO (a strategy) and override the hooks."""
+
+    def __init__(self):
+        super().__init__()
+        self.history = []  # (entry name, verdict) for every trial
+        self.pending_preselect = None
+        self.n_trials = 0
+
+    # ----- hooks
+    def on_built(self):
+        pass
+
+    def before_move(self, name):
+        return None
+
+    def after_move(self, pre, name, verdict):
+        pass
+
+    def after_step(self):
+        pass
+
+    def adjust(self, name, outcome, direction):
+        """Hook: let a property exclude a known-finding trigger by construction (count it)."""
+        return outcome, direction
+
+    def allow_preselect(self, name, move, what):
+        return True
+
+    # ----- plumbing
     def _do_init(self, scn):
         if self.dead:
             return
@@ -507,15 +523,6 @@ class MCMachine(RuleBasedStateMachine):
         elif what == "add" and hasattr(m, "to_add_atoms"):
             m.to_add_atoms = self.mc.exchange_atoms.copy()
             self.labels.add("preselect:add")
-
-    def teardown(self):
-        try:
-            if self.mc is not None:
-                self.mc.close()
-        except Exception:
-            pass
-        if self.sink is not None:
-            self.sink.finish(self)
 
 
 def specialise(base, sink, scenario_strategy):
